@@ -129,7 +129,7 @@ def gen_oracles(rng, quick):
 
 
 MTZ_VALUES = ['0', '-1', '1', '2', '7', '13', '28', '30', '155', '157', '185', '186', '500', '1000', '1001', '65536',
-              '2147483647', '-2147483648', '99999999', '4294967295', '-99']
+              '2147483647', '-2147483648', '99999999', '4294967295', '-99', '276447231x', '276447231x,', '99999999999', '-89478486*x,', '1000001/24']
 
 
 def gen_mtz_cases(rng, quick, hm):
@@ -144,6 +144,14 @@ def gen_mtz_cases(rng, quick, hm):
         size = int(out[2 * v + 1].split('\t')[2])
         for mode in range(8):       # memory / file / gzip / gzip + corrupt second member, with and without data
             lines.append('mtz_valid\t%d %d' % (v, mode))
+        # text records rewritten: symmetry triplets with numbers at / beyond the parser limits, odd names and titles
+        for key, text in (('SYMM', '276447231x,y,z'), ('SYMM', 'x,y,z+99999999999'), ('SYMM', '1000001*X,  Y,  Z'),
+                          ('SYMM', '1000000*x+1000000*x+1000000*x+1000000*x+1000000*x,y,z'), ('SYMM', ',,'), ('SYMM', 'x,y'),
+                          ('SYMINF', '99999999 99999999 Z 99999999 99999999 PG222'), ('SYMINF', "4 1 P 19 'P 21 21 21"),
+                          ('NCOL', '2147483647 2147483647 2147483647'), ('CELL', 'nan inf -1 1e999 0 0'), ('SORT', '99999999999 1 2 3 4'),
+                          ('COLUMN', 'x'), ('COLUMN', 'H H'), ('NDIF', '-5'), ('DATASET', '99999999999'), ('DCELL', '1'),
+                          ('BATCH', '1 2 3 4 5 6 7 8 9 10 11 12 13 14 15 16 17 18 19 20')):
+            lines.append('mtz_rec\t%d %d %s %s' % (v, rng.choice([0, 1]), key, text.encode().hex()))
         for _ in range(4 if quick else 200):
             lines.append('mtz_cut\t%d %d %d' % (v, rng.randint(size - 200, size + 5), rng.choice([6, 7])))
         vals = [int(t) for t in toks]
